@@ -163,6 +163,41 @@ def case_series(case):
     return {"v": v[:4], "nt": len(dirs) * len(runs), "key": core.canon(case), "n": len(dirs) * len(runs), "obs": {"worst_bearing_error_deg": round(worst, 2), "drivers": list(runs)}}
 
 
+def case_routes(case):
+    """the same convention when the configuration is built from the dataclasses directly, the run is given the caller's own
+    tower object, and - second route - another construction sharing the towers was rejected in between"""
+    import dataclasses
+
+    from bldfm.config_parser import BLDFMConfig, DomainConfig, MetConfig, SolverConfig, TowerConfig
+    from bldfm.interface import run_bldfm_single, run_bldfm_timeseries
+
+    nx, ny, xmax, ymax = GRIDS["square"]
+    rlat, rlon = ORIGINS[case["origin"]]
+    lat, lon = geo.place(rlat, rlon, xmax / 2, ymax / 2)
+    v = []
+    worst = 0.0
+    dirs = list(range(case["start"], 360, 45))
+    for wd in dirs:
+        mine = TowerConfig(name="mast", lat=lat, lon=lon, z_m=5.0)
+        cfg = BLDFMConfig(domain=DomainConfig(nx=nx, ny=ny, xmax=xmax, ymax=ymax, nz=8, modes=(nx, ny), ref_lat=rlat, ref_lon=rlon), towers=[mine],
+                          met=MetConfig(ustar=0.4, mol=-100.0, wind_speed=4.0, wind_dir=float(wd)), solver=SolverConfig(closure="MOST", footprint=True, precision="double"))
+        if case["route"] == "after-rejected-replace":
+            try:
+                dataclasses.replace(cfg, met=MetConfig(ustar=[0.3, 0.4], mol=[-50.0, -60.0, -70.0]))
+            except Exception:
+                pass
+        r = run_bldfm_single(cfg, mine) if case["driver"] == "single" else run_bldfm_timeseries(cfg, mine)[0]
+        # the tower's position is taken from the harness' own placement, not from the result
+        r = dict(r, tower_xy=(xmax / 2, ymax / 2))
+        b, e = _bearing_error(r, xmax, ymax, wd)
+        worst = max(worst, e)
+        if e > TOL_DEG:
+            v.append({"sub": "bearing-routes", "sig": "bearing-routes/%s" % case["route"], "msg": "configuration built from the dataclasses (%s), run given the caller's own tower object through %s, wind_dir=%d: footprint centre of mass at bearing %.1f from the tower's position (error %.1f deg > %g); case %s"
+                      % (case["route"], case["driver"], wd, b, e, TOL_DEG, core.canon(case))})
+            break
+    return {"v": v, "nt": len(dirs), "key": core.canon(case), "n": len(dirs), "obs": {"worst_bearing_error_deg": round(worst, 2)}}
+
+
 def run(ctx):
     core.warm_numba()
     ctx.rule = (
@@ -173,4 +208,6 @@ def run(ctx):
     sc = [{"grid": g, "origin": o, "closure": c, "mol": L, "ints": ints, "mol_int": ints and L != 1e9, "start": st, "parallel": (g == "square" and ints), "cache": not ints}
           for (g, o, c, L, st), ints in itertools.product([("square", "NE", "MOST", -100.0, 0), ("oblong", "greenwich", "MOSTM", 50.0, 7), ("aniso", "SW", "CONSTANT", 1e9, 13)], (True, False))]
     res += ctx.run_cases(case_series, sc, sub="series-drivers", chunksize=1)
+    res += ctx.run_cases(case_routes, [{"origin": o, "route": rt, "driver": d, "start": st} for (o, st), rt, d in itertools.product((("NE", 10), ("SW", 25)), ("dataclasses-own-tower", "after-rejected-replace"), ("single", "timeseries"))],
+                         sub="configuration from dataclasses / after a rejected construction", chunksize=1)
     ctx.cov["worst_bearing_error_deg"] = max([r.get("obs", {}).get("worst_bearing_error_deg", 0) for r in res] + [0])
